@@ -28,7 +28,7 @@ def main():
         if not os.path.exists(patch):
             continue
         if name.startswith("H"):
-            for c in ALL:
+            for c in (os.environ.get("REGRESS_CHECKS", "").split(",") if os.environ.get("REGRESS_CHECKS") else ALL):     # REGRESS_CHECKS=C01,C05: harmless sets on these checks only
                 jobs.append(dict(name=name, patch=patch, check=c, want="quiet"))
         else:
             meta = json.load(open(os.path.join(d, "meta.json")))
